@@ -223,7 +223,7 @@ fn assert_nonterminal_is_defined(
     ident: &Ident,
     defined_symbols: &DefinedSymbols,
 ) -> Result<(), KikiErr> {
-    if defined_symbols.0.contains(&ident.name) {
+    if defined_symbols.nonterminals.contains(&ident.name) {
         Ok(())
     } else {
         Err(KikiErr::UndefinedNonterminal(
@@ -237,7 +237,7 @@ fn assert_terminal_is_defined(
     terminal_ident: &TerminalIdent,
     defined_symbols: &DefinedSymbols,
 ) -> Result<(), KikiErr> {
-    if defined_symbols.0.contains(terminal_ident.name.raw()) {
+    if defined_symbols.terminals.contains(terminal_ident.name.raw()) {
         Ok(())
     } else {
         Err(KikiErr::UndefinedTerminal(
